@@ -15,7 +15,7 @@ import (
 type Server = server
 
 func (sx *server) VerifHandleMsg(src, dst net.IP, msg dhcpmsg.Message) { sx.handleMsg(src, dst, msg) }
-func (sx *server) VerifGetDuid(hw net.HardwareAddr, cid []byte) d.Duid  { return sx.getDuid(hw, cid) }
+func (sx *server) VerifGetDuid(hw net.HardwareAddr, cid []byte) d.Duid { return sx.getDuid(hw, cid) }
 func (sx *server) VerifDhcpOptions(hw net.HardwareAddr) []dhcpmsg.DHCPOpt {
 	return sx.dhcpOptions(hw)
 }
